@@ -239,14 +239,26 @@ fn run_case(seed: u64, idx: u64) -> CaseOut {
             }
             // ---- forgetting: reset_eta / reset / rewind ------------------------------------------------
             2 => {
-                let n1 = rng.range(1, 30) as usize;
+                // one history in five has nothing recorded before the reset (the bar only sat idle): the reset still has
+                // to move the time origin (round 11: "nothing recorded since the last reset, nothing to do")
+                let n1 = if rng.chance(1, 5) { 0 } else { rng.range(1, 30) as usize };
                 let h1 = gen_segments(&mut rng, n1);
                 let n2 = rng.range(1, 30) as usize;
                 let h2 = gen_segments(&mut rng, n2);
-                let how = rng.below(4);
+                let how = if n1 == 0 { [0, 1, 3][rng.usize(3)] } else { rng.below(4) };
+                let again = how != 2 && rng.chance(1, 4);
                 let d = Drv::new(Some(1 << 62));
                 let p1 = feed(&d, &h1, 0);
                 d.advance(gap_ms(&mut rng) * MS);
+                if again {
+                    // the same reset twice, idle time in between: the second one counts
+                    match how {
+                        0 => d.pb.reset_eta(),
+                        1 => d.pb.reset(),
+                        _ => d.pb.reset_elapsed(),
+                    }
+                    d.advance((1 + gap_ms(&mut rng)) * MS);
+                }
                 let (name, base) = match how {
                     0 => {
                         d.pb.reset_eta();
